@@ -217,6 +217,11 @@ func (sh *Shared) RunPath(h *ssa.Function, prefix []Decision, s *solver.Solver, 
 		default:
 			// an unrecovered panic of the code under test: in the node the process dies. This
 			// is the implicit assertion of every harness (label crash.unrecovered-panic).
+			if !isTargetPanic(r) {
+				// a failure of the engine itself (not of the code under test): never a verdict
+				res.Status, res.Reason = "engine-error", panicString(r)
+				break
+			}
 			res.Status, res.Reason = "crash", panicString(r)
 			recordCrash(i, res.Reason)
 		}
@@ -239,6 +244,30 @@ func (sh *Shared) RunPath(h *ssa.Function, prefix []Decision, s *solver.Solver, 
 		recordCrash(i, res.Reason)
 	}
 	return res
+}
+
+// isTargetPanic tells panics of the interpreted program (explicit panic(...), Go run-time errors
+// the interpreter raises on its behalf) from failures of the engine's own code.
+func isTargetPanic(r interface{}) bool {
+	switch r := r.(type) {
+	case targetPanic:
+		return true
+	case string:
+		for _, p := range []string{"runtime error:", "interface conversion:", "send on closed channel", "close of ", "sync:", "assignment to entry in nil map",
+			"comparing uncomparable", "reflect:", "reflect.", "all goroutines are asleep", "makeslice", "slice bounds", "index out of range", "integer divide by zero", "negative shift"} {
+			if strings.HasPrefix(r, p) {
+				return true
+			}
+		}
+		return false
+	case runtime.Error:
+		// raised by the Go run time inside the engine while it evaluates a target operation with
+		// concrete operands (index, conversion, nil map): these mirror the target's own run-time errors
+		msg := r.Error()
+		return strings.Contains(msg, "index out of range") || strings.Contains(msg, "slice bounds out of range") ||
+			strings.Contains(msg, "nil map") || strings.Contains(msg, "divide by zero")
+	}
+	return false
 }
 
 // CrashLabel is the implicit assertion of every harness.
